@@ -474,6 +474,7 @@ func (v *LogScopeVariables) Set(s context.Scope, name, operator string, val valu
 			return errors.WithStack(err)
 		}
 		v.ctx.Response.Header.Set(match[1], val.String())
+		v.ctx.Response.Assign(match[1])
 		return nil
 	}
 
@@ -484,8 +485,8 @@ func (v *LogScopeVariables) Set(s context.Scope, name, operator string, val valu
 func (v *LogScopeVariables) Add(s context.Scope, name string, val value.Value) error {
 	// Add statement could be use only for HTTP header
 	match := responseHttpHeaderRegex.FindStringSubmatch(name)
-	if match != nil {
-		// Nothing values to be enable to add in PASS, pass to base
+	if match == nil {
+		// Nothing values to be enable to add in LOG, pass to base
 		return v.base.Add(s, name, val)
 	}
 	if err := limitations.CheckProtectedHeader(match[1]); err != nil {
@@ -493,6 +494,7 @@ func (v *LogScopeVariables) Add(s context.Scope, name string, val value.Value) e
 	}
 
 	v.ctx.Response.Header.Add(match[1], val.String())
+	v.ctx.Response.Assign(match[1])
 	return nil
 }
 
@@ -506,5 +508,6 @@ func (v *LogScopeVariables) Unset(s context.Scope, name string) error {
 		return errors.WithStack(err)
 	}
 	v.ctx.Response.Header.Del(match[1])
+	v.ctx.Response.Unassign(match[1])
 	return nil
 }
